@@ -2,15 +2,16 @@
 
 (M)  small-step instance (pipeline stage by stage) with every declarative invariant + BigStepAgrees;
      as-implemented switch runs for D2 (AutoIdSkipsUsed) and D14 (ImplicitMapsLinked) must be violated.
-(C)  lean big-step instance (one action per public call) dumped; every edge of the dump — every description
-     x {file at depth 1, file at depth 2, dict through a WorldHandle, bare populate} x {Load, Load;Enable} —
-     is executed on the real classes.
+(C)  lean big-step instance (one action per public call) dumped; every path of the dump — every description
+     x {file at depth 1, file at depth 2, dict through a WorldHandle, bare populate} x Load; Enable —
+     is executed on the real classes, observations compared after each of the two calls.
 """
+import json
 import os
 import re
 from concurrent.futures import ThreadPoolExecutor
 
-from .. import common, graph as graphmod, replay, tla, tlc
+from .. import common, graph as graphmod, replay as rp, tla, tlc
 from ..adapters.worldload import WorldLoadAdapter
 
 INVARIANTS = ['TypeOK', 'LoadedEqualsDescribed', 'ReturnedDisabled', 'QuietWhileLoading', 'WorldLoadQueuedLast',
@@ -127,9 +128,13 @@ def replay_all(res, g, shapes, name, desper):
     def factory():
         return WorldLoadAdapter(desper, shapes, workdir=res.scratch)
 
-    st = replay.run_paths(g, factory, replay.edge_paths(g))
+    # the graph is a forest of depth 2: "every path of depth 2" is every (description, mode, Load; Enable)
+    # and passes through every edge
+    st = rp.run_paths(g, factory, rp.all_paths(g, 2))
     st.extra['descriptions'] = len(g.init)
-    res.absorb(st, name + ':every-edge', g)
+    res.absorb(st, name + ':all-paths-depth-2', g)
+    if not st.n_violations and len(st.edges) != g.n_edges():
+        raise common.MachineryError('%s: replay took %d of %d edges' % (name, len(st.edges), g.n_edges()))
 
 
 def run(res):
@@ -153,7 +158,7 @@ def run(res):
     replay_all(res, g, shapes, 'quick', desper)
     sample(res, g, shapes, desper)
     if res.tier == 'thorough':
-        for fam in ('TV1', 'TV2', 'TV3', 'TS0', 'TS1', 'TS2', 'TS3', 'TS4', 'TS5', 'TS6'):
+        for fam in ('TV1', 'TV2', 'TV3') + tuple('TS%d' % k for k in range(9)):
             if res.violations:
                 break
             with ThreadPoolExecutor(2) as pool:
@@ -166,7 +171,27 @@ def run(res):
             replay_all(res, g, shapes, fam, desper)
     res.cov['distinct_behaviours'] = res.traces
     res.cov['rule'] = ('every description of the family is an initial state; each edge of the dumped graph (Load in four '
-                       'modes, Enable after each) is executed on the real classes; distinct = distinct (description, calls)')
+                       'modes, Enable after each) is executed on the real classes; distinct = distinct (description, mode)')
+
+
+def replay(res, path):
+    """./check C15 --replay FILE: rebuild the family named in the file, find the description, walk its calls."""
+    desper = common.import_desper()
+    with open(path) as f:
+        blob = json.load(f)
+    fam = blob['summary'].split(':', 1)[0]
+    g, shapes = tlc_dump(res, fam, 'c15_%s_lean' % fam)
+    init = blob['detail']['init_state']
+    start = next((i for i in g.init if tla.to_json(g.states[i]) == init), None)
+    if start is None:
+        raise common.MachineryError('description of the replay file is not in family %r' % fam)
+    labels = [(n, tuple(a)) for n, a in blob['detail']['labels']]
+    st = rp.Stats()
+    v = rp.walk(g, WorldLoadAdapter(desper, shapes, workdir=res.scratch), labels, None, st, start=start)
+    if v:
+        st.violations.append(v)
+        st.n_violations = 1
+    res.absorb(st, fam + ':replay', g)
 
 
 def sample(res, g, shapes, desper):
